@@ -795,7 +795,7 @@ def gen_rates(rnd, dyn='sto'):
     sp = dict(comps=comps, nodeloci=nodeloci, edgeloci=[], multiloci=[], perel=perel, fixed=fixed, handlers=handlers, posts=[])
     ps = sorted({p for (_, p, _) in perel + fixed if 0 < p < 1})
     return dict(procs=[dict(cls='Script', name=None, spec=sp)], seq='bare', dyn=dyn, nodes=nodes, edges=edges,
-                maxT=rnd.choice([2.0, 4.0, 8.0]), seed=rnd.random(), specials=ps, pspecial=0.25, oracles=['clock', 'member', 'loci'])
+                maxT=rnd.choice([2.0, 4.0, 8.0]), seed=rnd.random(), specials=ps, pspecial=rnd.choice([0.25, 0.5]), oracles=['clock', 'member', 'loci'])
 
 
 def gen_bigloci(rnd, dyn='syn'):
